@@ -196,3 +196,22 @@ def c17(run):
     run.cov['rule'] = ('real keys of the 24 registered algorithms x {original, CBOR, JSON, text round trip} x alg present/absent x optional kid/key_ops, all four factories; '
                        'grid of (kty, alg, crv) triples incl. unregistered values and non-integer members; nil key; KeySet/Signers/Verifiers lookups incl. case-variant and non-UTF-8 ids')
     return D.finish(run, 'proof')
+
+
+# ------------------------------------------------------------------ C11
+
+@check('C11')
+def c11(run):
+    run.assumptions += ['Go crypto/hmac, crypto/sha256, crypto/sha512, crypto/aes and cipher.NewCBCEncrypter are modelled by the Gallina references; the mac correspondence compares them byte for byte (not verified)',
+                        'unforgeability (a tag for other data or another key) is the usual MAC assumption; exactness of the comparison is proved']
+    run.trusted += ['Gallina SHA-2/HMAC/AES/CBC-MAC in coq/Lib (constants computed from their definitions; validated against FIPS 180-4, RFC 4231, FIPS 197 vectors in Spec/Vectors.v)']
+    D.prove(run, extra_targets=['Model/CryptoCorr.vo', 'Spec/Vectors.vo'])
+    rc, o = D.harness_build()
+    if rc != 0:
+        run.broke('harness build', o[-1500:])
+    else:
+        D.correspond(run, 'mac', [])
+        D.run_minlink(run, 'C11_hmac_tag_is_rfc')
+    run.cov['rule'] = ('8 MAC algorithms x random keys x message lengths 0..40 (every residue mod 16), neighbourhoods of 64/128, 4095..5000 (thorough: 0..400, 16384, 65535, 65536) '
+                       'with tags compared to the Gallina reference; per message: truncated/extended/bit-flipped/empty tags, other data, other key; key sizes 0..65; SHA-2 digests vs Go')
+    return D.finish(run, 'proof')
